@@ -31,11 +31,17 @@ ACTIONS = ["write", "clear", "backport", "move", "delete", "modify_patch", "set_
 class Model:
     """abstract model kept by the harness"""
 
-    def __init__(self, sx, n):
+    def __init__(self, sx, n, symbolic_placement=True, bundle=False):
         self.sx = sx
-        o = [sx.real(f"o{i}", -5, 5) for i in range(3)]
-        ex = [sx.real(f"ex{i}", 1, 3) for i in range(n)]
-        ey, ez = sx.real("ey", 1, 3), sx.real("ez", 1, 3)
+        self.bundle = bundle
+        if symbolic_placement:
+            o = [sx.real(f"o{i}", -5, 5) for i in range(3)]
+            ex = [sx.real(f"ex{i}", 1, 3) for i in range(n)]
+            ey, ez = sx.real("ey", 1, 3), sx.real("ez", 1, 3)
+        else:
+            o = [sx.const(x) for x in (0.5, -1.0, 0.25)]
+            ex = [sx.const(x) for x in (1.0, 1.5, 1.25)[:n]]
+            ey, ez = sx.const(1.25), sx.const(2.0)
         self.corners = []       # per operation: 8 corner positions (current depot state)
         x0 = o[0]
         for i in range(n):
@@ -61,14 +67,33 @@ class Model:
         mesh = cb.Mesh()
         ops = [cb.Loft(cb.Face(c[:4]), cb.Face(c[4:])) for c in corners]
         self.decorate(ops)
-        for i, op in enumerate(ops):
-            if i not in deleted:
-                mesh.add(op)
+        if self.bundle:
+            # all operations in ONE multi-operation entity (like a Shape/Stack)
+            mesh.add(Bundle([op for i, op in enumerate(ops) if i not in deleted]))
+        else:
+            for i, op in enumerate(ops):
+                if i not in deleted:
+                    mesh.add(op)
         for name, (kind, settings) in patch_mod.items():
             mesh.modify_patch(name, kind, settings)
         if default:
             mesh.set_default_patch(*default)
         return mesh, ops
+
+
+class Bundle(cb.Shape):
+    """a user-defined multi-operation entity"""
+
+    def __init__(self, ops):
+        self._ops = list(ops)
+
+    @property
+    def operations(self):
+        return self._ops
+
+    @property
+    def grid(self):
+        return [self._ops]
 
 
 def _same_file(sx, got, want, label, key):
@@ -104,9 +129,17 @@ def _same_file(sx, got, want, label, key):
     sx.prove(sx.all(conds), label, key, info={"differences": problems[:6]})
 
 
-def run(sx, n, steps, restrict=None, all_vertices=False):
-    M = Model(sx, n)
-    mesh, ops = M.build(M.corners, set(), {}, None)
+def run(sx, n, steps, restrict=None, all_vertices=False, symbolic_placement=True, bundle=False):
+    M = Model(sx, n, symbolic_placement, bundle)
+    M.bundle = False
+    mesh = cb.Mesh()
+    ops = [cb.Loft(cb.Face(c[:4]), cb.Face(c[4:])) for c in M.corners]
+    M.decorate(ops)
+    if bundle:
+        mesh.add(Bundle(ops))      # the mesh under test holds all operations in one entity; deletions happen inside it
+    else:
+        for op in ops:
+            mesh.add(op)
     # the assembled snapshot the library works on (None = not assembled)
     snap = None
     history = []
@@ -227,22 +260,25 @@ def jobs(tier, seed):
     steps = 2 if tier == "quick" else 3
     for first in ACTIONS:
         # the first action is fixed per job (parallelism); the rest is chosen by the solver
-        js.append({"name": f"2boxes|first={first}|steps={steps}", "fn": "run_first",
-                   "params": {"n": 2, "steps": steps, "first": first, "all_vertices": tier == "thorough"},
-                   "budget_s": 280 if tier == "quick" else 1500, "max_paths": 4000})
-    if tier == "thorough":
-        for first in ACTIONS:
-            js.append({"name": f"3boxes|first={first}|steps=3", "fn": "run_first", "params": {"n": 3, "steps": 3, "first": first, "all_vertices": False},
-                       "budget_s": 1500, "max_paths": 20000})
+        for bundle in (False, True):
+            js.append({"name": f"2boxes|first={first}|steps={steps}|one-entity={bundle}", "fn": "run_first",
+                       "params": {"n": 2 if not bundle else 3, "steps": steps, "first": first, "all_vertices": tier == "thorough",
+                                  "symbolic_placement": tier == "thorough", "bundle": bundle},
+                       "budget_s": 280 if tier == "quick" else 1500, "max_paths": 4000 if tier == "quick" else 40000})
+    if tier == "quick":
+        # symbolic placement on the histories around move/backport
+        for first in ("move", "delete"):
+            js.append({"name": f"2boxes|first={first}|steps=1|symbolic placement", "fn": "run_first",
+                       "params": {"n": 2, "steps": 1, "first": first, "symbolic_placement": True}, "budget_s": 280})
     return js
 
 
-def run_first(sx, n, steps, first, all_vertices=False):
+def run_first(sx, n, steps, first, all_vertices=False, symbolic_placement=True, bundle=False):
     # history = first action, then `steps` solver-chosen actions, then the final write
-    return _run_with_first(sx, n, steps, first, all_vertices)
+    return _run_with_first(sx, n, steps, first, all_vertices, symbolic_placement, bundle)
 
 
-def _run_with_first(sx, n, steps, first, all_vertices=False):
+def _run_with_first(sx, n, steps, first, all_vertices=False, symbolic_placement=True, bundle=False):
     orig_choice = sx.choice
     state = {"used": False}
 
@@ -253,6 +289,6 @@ def _run_with_first(sx, n, steps, first, all_vertices=False):
         return orig_choice(name, k)
     sx.choice = choice
     try:
-        return run(sx, n, steps + 1, all_vertices=all_vertices)
+        return run(sx, n, steps + 1, all_vertices=all_vertices, symbolic_placement=symbolic_placement, bundle=bundle)
     finally:
         sx.choice = orig_choice
